@@ -1,5 +1,5 @@
 """C15 kernels: uint32var, packed point numbers / delta runs, CFF/T2/T1 operands, fixed point, eexec, sstruct."""
-from sx.api import kernel, V, ob, observe, eq, conj, disj, shim, shim_defaults, assume, tobytes, symbolic, seq_eq, absdiff_le, le
+from sx.api import kernel, shim_all, V, ob, observe, eq, conj, disj, shim, shim_defaults, assume, tobytes, symbolic, seq_eq, absdiff_le, le
 import fontTools.ttLib.tables.otTables as OT
 import fontTools.ttLib.tables.TupleVariation as TVm
 import fontTools.misc.psCharStrings as PS
@@ -10,12 +10,12 @@ import fontTools.misc.sstruct as SS
 import fontTools.misc.textTools as TT
 
 TV = TVm.TupleVariation
-shim(OT, 'struct')
-shim(TVm, 'struct', 'array', 'bytearray', 'range')
-shim(PS, 'struct', 'byteord', 'bytechr', 'bytesjoin')
-shim(RT, 'math', 'int')
-shim(EE, 'byteord', 'bytechr', 'bytesjoin', 'int')
-shim(SS, 'struct', 'tobytes', 'tostr', 'isinstance')
+shim_all(OT)
+shim_all(TVm)
+shim_all(PS)
+shim_all(RT)
+shim_all(EE)
+shim_all(SS)
 for _f in (PS.encodeIntCFF, PS.encodeIntT1, PS.encodeIntT2):
     shim_defaults(_f, bytechr='bytechr', pack='struct.pack', unpack='struct.unpack')
 shim_defaults(PS.encodeFixed, pack='struct.pack')
